@@ -10,6 +10,8 @@ pub mod c07;
 pub mod c09;
 pub mod c10;
 pub mod store;
+pub mod c12;
+pub mod c15;
 pub mod c16;
 pub mod hist;
 pub mod memkv;
